@@ -147,13 +147,14 @@ theorem jwt_iff (hnull : Gen.jwtNullRejected = true) (json : Bytes → JDoc) (da
     exact ⟨h, p, s, (Lemmas.Base64.accept_iff a h).mpr ha,
       (Lemmas.Base64.accept_iff b p).mpr hb, (Lemmas.Base64.accept_iff c s).mpr hc, h1, h2⟩
 
-/-- the per-name function of `attributesOf` -/
+/-- the per-name function of `attributesOfIn` -/
 def attrFn (m : List (Bytes × JVal)) (k : String) : Option Attr :=
   match paramOf k, m.lookup (k.toList.map Char.toNat) with
   | some (descr, conv), some v => (convert conv v).map fun s => ⟨descr.toList.map Char.toNat, s⟩
   | _, _ => none
 
-theorem attributesOf_eq (m : List (Bytes × JVal)) : attributesOf m = Gen.jwtParamOrder.filterMap (attrFn m) := rfl
+theorem attributesOf_eq (order : List String) (m : List (Bytes × JVal)) :
+    attributesOfIn order m = order.filterMap (attrFn m) := rfl
 
 theorem attrFn_some (m : List (Bytes × JVal)) (k descr conv : String) (v : JVal)
     (hp : paramOf k = some (descr, conv)) (hv : m.lookup (k.toList.map Char.toNat) = some v) :
@@ -172,28 +173,31 @@ theorem convert_unixTime (hnd : Gen.jwtNumericDates = true) (n : Int) :
     convert "unixTime" (.num n) = some (Civil.fmtDateTime n) := by
   simp [convert, hnd]
 
-theorem registered_readback (hes : Gen.jwtEmptyShown = true) (m : List (Bytes × JVal)) (k descr : String) (s : Bytes)
-    (hk : k ∈ Gen.jwtParamOrder) (hp : paramOf k = some (descr, "str"))
+theorem registered_readback (hes : Gen.jwtEmptyShown = true) (order : List String) (m : List (Bytes × JVal))
+    (k descr : String) (s : Bytes)
+    (hk : k ∈ order) (hp : paramOf k = some (descr, "str"))
     (hv : m.lookup (k.toList.map Char.toNat) = some (.str s)) :
-    (⟨descr.toList.map Char.toNat, s⟩ : Attr) ∈ attributesOf m := by
+    (⟨descr.toList.map Char.toNat, s⟩ : Attr) ∈ attributesOfIn order m := by
   rw [attributesOf_eq, List.mem_filterMap]
   exact ⟨k, hk, by rw [attrFn_some m k descr "str" _ hp hv, convert_str hes]; rfl⟩
 
 theorem alg_readback (hes : Gen.jwtEmptyShown = true) (m : List (Bytes × JVal)) (descr : String) (s : Bytes)
     (hp : paramOf "alg" = some (descr, "sigAlg")) (hv : m.lookup (strBytes "alg") = some (.str s)) :
-    (⟨descr.toList.map Char.toNat, algText s⟩ : Attr) ∈ attributesOf m := by
+    (⟨descr.toList.map Char.toNat, algText s⟩ : Attr) ∈ headerAttributes m := by
+  unfold headerAttributes
   rw [attributesOf_eq, List.mem_filterMap]
   exact ⟨"alg", by decide, by rw [attrFn_some m "alg" descr "sigAlg" _ hp hv, convert_sigAlg hes]; rfl⟩
 
-theorem numeric_dates (hnd : Gen.jwtNumericDates = true) (m : List (Bytes × JVal)) (k descr : String) (n : Int)
-    (hk : k ∈ Gen.jwtParamOrder) (hp : paramOf k = some (descr, "unixTime"))
+theorem numeric_dates (hnd : Gen.jwtNumericDates = true) (order : List String) (m : List (Bytes × JVal))
+    (k descr : String) (n : Int)
+    (hk : k ∈ order) (hp : paramOf k = some (descr, "unixTime"))
     (hv : m.lookup (k.toList.map Char.toNat) = some (.num n)) :
-    (⟨descr.toList.map Char.toNat, Civil.fmtDateTime n⟩ : Attr) ∈ attributesOf m := by
+    (⟨descr.toList.map Char.toNat, Civil.fmtDateTime n⟩ : Attr) ∈ attributesOfIn order m := by
   rw [attributesOf_eq, List.mem_filterMap]
   exact ⟨k, hk, by rw [attrFn_some m k descr "unixTime" _ hp hv, convert_unixTime hnd]; rfl⟩
 
-theorem absent_not_shown (m : List (Bytes × JVal)) (a : Attr) (ha : a ∈ attributesOf m) :
-    ∃ k ∈ Gen.jwtParamOrder, ∃ descr conv v, paramOf k = some (descr, conv) ∧
+theorem absent_not_shown (order : List String) (m : List (Bytes × JVal)) (a : Attr) (ha : a ∈ attributesOfIn order m) :
+    ∃ k ∈ order, ∃ descr conv v, paramOf k = some (descr, conv) ∧
       m.lookup (k.toList.map Char.toNat) = some v ∧ a.name = descr.toList.map Char.toNat := by
   rw [attributesOf_eq, List.mem_filterMap] at ha
   obtain ⟨k, hk, hf⟩ := ha
@@ -234,8 +238,9 @@ theorem lookup_perm {α β} [BEq α] [LawfulBEq α] (k : α) : ∀ {m₁ m₂ : 
     rw [ih1 hn]
     exact ih2 (((h1.map (·.1)).nodup_iff).mp hn)
 
-theorem order_independent (m₁ m₂ : List (Bytes × JVal)) (hp : m₁.Perm m₂) (hn : (m₁.map (·.1)).Nodup) :
-    attributesOf m₁ = attributesOf m₂ := by
+theorem order_independent (order : List String) (m₁ m₂ : List (Bytes × JVal)) (hp : m₁.Perm m₂)
+    (hn : (m₁.map (·.1)).Nodup) :
+    attributesOfIn order m₁ = attributesOfIn order m₂ := by
   rw [attributesOf_eq, attributesOf_eq]
   congr 1
   funext k
